@@ -302,7 +302,8 @@ Ltac go_cases :=
 Ltac go_norm := cbv zeta beta; cbn [app]; rewrite ?app_nil_l, ?app_nil_r, <- ?app_assoc, ?sapp_assoc, ?sapp_nil_r.
 
 (* the side condition of fold_left_append_only for a translated loop body *)
-Ltac go_append_only := intros; cbv beta zeta; go_cases; rewrite ?app_nil_l, ?app_nil_r, <- ?app_assoc; try reflexivity; try congruence.
+Ltac go_pairs := repeat match goal with p : (_ * _)%type |- _ => destruct p end.
+Ltac go_append_only := intros; go_pairs; cbv beta zeta; go_cases; rewrite ?app_nil_l, ?app_nil_r, <- ?app_assoc; try reflexivity; try congruence.
 
 (* turn every append-only range loop of the goal into a flat_map (and a copying loop into the list itself) *)
 Ltac go_loops :=
@@ -324,3 +325,227 @@ Ltac go_strings :=
 (* the usual end of an agreement proof about functions of a few strings: loops to flat_maps, case
    analysis on emptiness, computation, associativity of the appends *)
 Ltac go_auto := try go_loops; go_norm; go_strings; cbn; go_norm; try reflexivity.
+
+(* ---------------------------------------------------------------- maps *)
+From Coq Require Import Permutation.
+
+Lemma map_get_find {V} : forall (z : V) m k, map_get z m k = match map_find m k with Some v => v | None => z end.
+Proof. induction m as [|[k' v] m IH]; simpl; intros k; auto. destruct (String.eqb k k'); auto. Qed.
+
+Lemma map_has_find {V} : forall (m : gomap V) k, map_has m k = match map_find m k with Some _ => true | None => false end.
+Proof. induction m as [|[k' v] m IH]; simpl; intros k; auto. destruct (String.eqb k k'); auto. Qed.
+
+Lemma map_find_set_same {V} : forall (m : gomap V) k v, map_find (map_set m k v) k = Some v.
+Proof.
+  induction m as [|[k' v'] m IH]; simpl; intros k v; [now rewrite String.eqb_refl|].
+  destruct (String.eqb k k') eqn:E; simpl; [now rewrite String.eqb_refl|]. rewrite E. apply IH.
+Qed.
+
+Lemma map_find_set_other {V} : forall (m : gomap V) k k' v, k <> k' -> map_find (map_set m k' v) k = map_find m k.
+Proof.
+  induction m as [|[k2 v2] m IH]; simpl; intros k k' v H.
+  - apply String.eqb_neq in H. now rewrite H.
+  - destruct (String.eqb k' k2) eqn:E; simpl.
+    + apply String.eqb_eq in E. subst k2. apply String.eqb_neq in H. now rewrite H.
+    + destruct (String.eqb k k2); auto.
+Qed.
+
+Lemma map_find_set {V} : forall (m : gomap V) k k' v,
+  map_find (map_set m k' v) k = if String.eqb k k' then Some v else map_find m k.
+Proof.
+  intros. destruct (String.eqb_spec k k'); [subst; apply map_find_set_same|now apply map_find_set_other].
+Qed.
+
+Lemma map_get_set_same {V} : forall (z : V) m k v, map_get z (map_set m k v) k = v.
+Proof. intros. now rewrite map_get_find, map_find_set_same. Qed.
+
+Lemma map_get_set_other {V} : forall (z : V) m k k' v, k <> k' -> map_get z (map_set m k' v) k = map_get z m k.
+Proof. intros. rewrite !map_get_find, map_find_set_other; auto. Qed.
+
+Lemma map_find_notin {V} : forall (m : gomap V) k, ~ In k (map fst m) -> map_find m k = None.
+Proof.
+  induction m as [|[k' v] m IH]; simpl; intros k H; auto.
+  destruct (String.eqb_spec k k'); [subst; exfalso; auto|]. apply IH. tauto.
+Qed.
+
+Lemma map_find_in_keys {V} : forall (m : gomap V) k v, map_find m k = Some v -> In k (map fst m).
+Proof.
+  induction m as [|[k' v'] m IH]; simpl; intros k v H; [discriminate|].
+  destruct (String.eqb_spec k k'); [now left|right; eauto].
+Qed.
+
+(* the keys after m[k] = v: unchanged when k was there, k appended otherwise *)
+Lemma map_set_keys {V} : forall (m : gomap V) k v,
+  map fst (map_set m k v) = if map_has m k then map fst m else map fst m ++ [k].
+Proof.
+  induction m as [|[k' v'] m IH]; simpl; intros k v; auto.
+  destruct (String.eqb_spec k k'); simpl; [now subst|]. rewrite IH. destruct (map_has m k); reflexivity.
+Qed.
+
+(* distinct keys are preserved: a Go map never holds a key twice *)
+Lemma map_set_wf {V} : forall (m : gomap V) k v, map_wf m -> map_wf (map_set m k v).
+Proof.
+  unfold map_wf. induction m as [|[k' v'] m IH]; simpl; intros k v H; [repeat constructor; auto|].
+  inversion H as [|? ? Hn Hnd]; subst.
+  destruct (String.eqb_spec k k'); simpl; [subst; constructor; auto|].
+  constructor; [|now apply IH].
+  rewrite map_set_keys. destruct (map_has m k); auto.
+  rewrite in_app_iff. simpl. intros [?|[?|[]]]; [auto|congruence].
+Qed.
+
+Lemma map_wf_nil {V} : map_wf (@nil (string * V)).
+Proof. constructor. Qed.
+
+Lemma map_find_In {V} : forall (m : gomap V) k v, map_wf m -> (map_find m k = Some v <-> In (k, v) m).
+Proof.
+  unfold map_wf. induction m as [|[k' v'] m IH]; simpl; intros k v N; [split; [discriminate|tauto]|].
+  inversion N as [|? ? Hn Hnd]; subst. destruct (String.eqb_spec k k').
+  - subst k'. split; [intros [= ->]; now left|].
+    intros [[= ->]|Hin]; auto. exfalso. apply Hn. apply in_map_iff. now exists (k, v).
+  - rewrite IH by assumption. split; [now right|]. intros [[= -> ->]|Hin]; [congruence|assumption].
+Qed.
+
+Lemma map_wf_NoDup {V} : forall (m : gomap V), map_wf m -> NoDup m.
+Proof.
+  unfold map_wf. induction m as [|[k v] m IH]; simpl; intros N; constructor; inversion N; subst; auto.
+  intros Hin. apply H1. apply in_map_iff. now exists (k, v).
+Qed.
+
+(* two maps that answer every lookup alike hold the same entries *)
+Lemma map_perm_of_find {V} : forall (m1 m2 : gomap V), map_wf m1 -> map_wf m2 ->
+  (forall k, map_find m1 k = map_find m2 k) -> Permutation m1 m2.
+Proof.
+  intros m1 m2 W1 W2 H. apply NoDup_Permutation; auto using map_wf_NoDup.
+  intros [k v]. rewrite <- !map_find_In by assumption. now rewrite H.
+Qed.
+
+Lemma map_find_perm {V} : forall (m1 m2 : gomap V) k, map_wf m1 -> Permutation m1 m2 -> map_find m2 k = map_find m1 k.
+Proof.
+  intros m1 m2 k W1 P.
+  assert (W2 : map_wf m2) by (unfold map_wf in *; eapply Permutation_NoDup; [apply Permutation_map; exact P|exact W1]).
+  destruct (map_find m1 k) as [v|] eqn:E.
+  - apply map_find_In; auto. eapply Permutation_in; [exact P|]. now apply map_find_In.
+  - destruct (map_find m2 k) as [v|] eqn:E'; auto.
+    apply map_find_In in E'; auto. apply Permutation_sym in P. apply (Permutation_in _ P) in E'.
+    apply map_find_In in E'; auto. congruence.
+Qed.
+
+(* len(m) counts keys; ranging in any order visits every entry once *)
+Lemma is_order_length {V} : forall (ord : map_order V), is_order ord -> forall m, length (ord m) = length m.
+Proof. intros ord H m. apply Permutation_length, H. Qed.
+
+Lemma is_order_id {V} : is_order (fun m : gomap V => m).
+Proof. intros m. apply Permutation_refl. Qed.
+
+(* ---------------------------------------------------------------- strings.SplitN *)
+Lemma strings_SplitN_neg : forall s sep n, (n < 0)%Z -> strings_SplitN s sep n = strings_Split s sep.
+Proof.
+  intros s sep n H. unfold strings_SplitN.
+  destruct (Z.eqb_spec n 0); [lia|]. destruct (Z.ltb_spec n 0); [reflexivity|lia].
+Qed.
+
+Lemma strings_SplitN_0 : forall s sep, strings_SplitN s sep 0 = [].
+Proof. reflexivity. Qed.
+
+(* n = 2: cut at the first instance of sep *)
+Lemma strings_SplitN_2 : forall s sep, strings_SplitN s sep 2 =
+  match strings_Index s sep with
+  | None => [s]
+  | Some m => [stake m s; sdrop (m + String.length sep) s]
+  end.
+Proof.
+  intros. unfold strings_SplitN. change (Z.eqb 2 0) with false. change (Z.ltb 2 0) with false.
+  change (Z.to_nat (2 - 1)) with 1%nat. cbn [split_loop]. destruct (strings_Index s sep); reflexivity.
+Qed.
+
+Lemma split_first_Index : forall c s,
+  split_first c s = match strings_Index s (String c EmptyString) with
+                    | None => None
+                    | Some m => Some (stake m s, sdrop (m + 1) s)
+                    end.
+Proof.
+  intros c. induction s as [|d r IH]; [reflexivity|].
+  cbn [split_first strings_Index]. rewrite prefix_char. destruct (Ascii.eqb d c); [reflexivity|].
+  rewrite IH. destruct (strings_Index r (String c EmptyString)); reflexivity.
+Qed.
+
+Lemma strings_SplitN_2_char : forall c s, strings_SplitN s (String c EmptyString) 2 =
+  match split_first c s with Some (a, b) => [a; b] | None => [s] end.
+Proof.
+  intros. rewrite strings_SplitN_2, split_first_Index.
+  destruct (strings_Index s (String c EmptyString)); reflexivity.
+Qed.
+
+(* the first c: nothing before it contains c; everything behind it is kept, further c's included *)
+Lemma split_first_Some : forall c s a b,
+  split_first c s = Some (a, b) <-> s = (a ++ String c b)%string /\ has_char c a = false.
+Proof.
+  intros c. induction s as [|d r IH]; intros a b; cbn [split_first].
+  - split; [discriminate|]. intros [H _]. destruct a; discriminate.
+  - destruct (Ascii.eqb d c) eqn:E.
+    + apply Ascii.eqb_eq in E. subst d. split.
+      * intros [= <- <-]. auto.
+      * intros [H Ha]. destruct a as [|e a]; [now injection H as ->|].
+        injection H as -> _. cbn in Ha. now rewrite Ascii.eqb_refl in Ha.
+    + destruct (split_first c r) as [[a' b']|] eqn:S.
+      * split.
+        -- intros [= <- <-]. destruct (proj1 (IH a' b') eq_refl) as [-> Ha]. cbn. now rewrite E.
+        -- intros [H Ha]. destruct a as [|e a]; [injection H as -> _; now rewrite Ascii.eqb_refl in E|].
+           injection H as -> H. cbn in Ha. rewrite E in Ha. cbn in Ha.
+           pose proof (proj2 (IH a b) (conj H Ha)) as Q. now injection Q as -> ->.
+      * split; [discriminate|]. intros [H Ha]. destruct a as [|e a]; [injection H as -> _; now rewrite Ascii.eqb_refl in E|].
+        injection H as -> H. cbn in Ha. rewrite E in Ha. cbn in Ha. pose proof (proj2 (IH a b) (conj H Ha)). discriminate.
+Qed.
+
+Lemma split_first_None : forall c s, split_first c s = None <-> has_char c s = false.
+Proof.
+  intros c. induction s as [|d r IH]; cbn [split_first has_char]; [tauto|].
+  destruct (Ascii.eqb d c); cbn; [split; discriminate|].
+  destruct (split_first c r) as [[a b]|]; [split; [discriminate|]|tauto].
+  intros H. apply IH in H. discriminate.
+Qed.
+
+Lemma split_first_app : forall c a b, has_char c a = false -> split_first c (a ++ String c b)%string = Some (a, b).
+Proof. intros. apply split_first_Some. auto. Qed.
+
+(* ---------------------------------------------------------------- Replace, ToLower, TrimSpace *)
+Lemma concat_cons_char : forall sep d h t, String.concat sep (String d h :: t) = String d (String.concat sep (h :: t)).
+Proof. intros. destruct t; reflexivity. Qed.
+
+(* replacing one byte by another is a byte-wise map *)
+Lemma strings_ReplaceAll_char : forall c d s,
+  strings_ReplaceAll s (String c EmptyString) (String d EmptyString) = map_bytes (fun x => if Ascii.eqb x c then d else x) s.
+Proof.
+  intros c d s. unfold strings_ReplaceAll, strings_Join. rewrite strings_Split_char.
+  induction s as [|e r IH]; [reflexivity|]. cbn [split_char map_bytes].
+  destruct (Ascii.eqb e c).
+  - destruct (split_char c r) as [|h t] eqn:S; [exfalso; exact (split_char_nonempty _ _ S)|].
+    cbn [String.concat]. cbn [String.concat] in IH. rewrite <- IH. reflexivity.
+  - destruct (split_char c r) as [|h t] eqn:S; [exfalso; exact (split_char_nonempty _ _ S)|].
+    rewrite concat_cons_char, IH. reflexivity.
+Qed.
+
+Lemma strings_ToLower_bytes : forall s, strings_ToLower s = map_bytes lower_byte s.
+Proof. induction s; simpl; congruence. Qed.
+
+Lemma strings_ToLower_idem : forall s, strings_ToLower (strings_ToLower s) = strings_ToLower s.
+Proof.
+  induction s as [|c s IH]; simpl; [reflexivity|]. rewrite IH. f_equal.
+  unfold lower_byte. destruct (Nat.leb 65 (nat_of_ascii c) && Nat.leb (nat_of_ascii c) 90) eqn:E; [|now rewrite E].
+  apply andb_prop in E as [E1 E2]. apply Nat.leb_le in E1, E2.
+  rewrite nat_ascii_embedding by lia.
+  destruct (Nat.leb 65 (nat_of_ascii c + 32) && Nat.leb (nat_of_ascii c + 32) 90) eqn:E3; [|reflexivity].
+  apply andb_prop in E3 as [_ E4]. apply Nat.leb_le in E4. lia.
+Qed.
+
+Lemma trim_left_no_space : forall s, match trim_left s with String c _ => is_space_byte c = false | EmptyString => True end.
+Proof. induction s as [|c s IH]; simpl; auto. destruct (is_space_byte c) eqn:E; auto. Qed.
+
+(* a loop with a return slot (the translation of `return` inside a range loop): once a round has returned,
+   the remaining rounds change nothing.  Adds the hypothesis Hret about the first fold of the goal. *)
+Ltac go_returned :=
+  match goal with
+  | |- context [fold_left ?f _ _] =>
+      assert (forall l r st, fold_left f l (Some r, st) = (Some r, st)) as Hret
+        by (let l := fresh "l" in intro l; induction l as [|? ? IHl]; intros; cbn [fold_left]; [reflexivity|apply IHl])
+  end.
